@@ -60,13 +60,29 @@ class GaugeMonitor:
         return False
 
 
+def block_copies(system, m):
+    """X -> diag(X, ..., X) (m co-centred copies): every level becomes m-fold degenerate at every k"""
+    n = system.num_wann
+    mats = {}
+    for k, X in system._XX_R.items():
+        Y = np.zeros((X.shape[0], m * n, m * n) + X.shape[3:], dtype=complex)
+        for c in range(m):
+            Y[:, c * n:(c + 1) * n, c * n:(c + 1) * n] = X
+        mats[k] = Y
+    cred = np.vstack([system.wannier_centers_red] * m)
+    return gen_systems.make_system(system.real_lattice, system.rvec.iRvec, mats, cred)
+
+
+KINDS = ("spin_doubled", "block_copies", "spin_doubled_x2", "block_copies_3", "block_copies_4")
+
+
 def degenerate_system(rng, kind):
-    """G-deg: exact degeneracies at every k"""
-    nw = int(rng.integers(1, 4))
+    """G-deg: exact degeneracies (2-, 3- or 4-fold) at every k"""
+    nw = int(rng.integers(1, 4)) if kind in ("spin_doubled", "block_copies") else int(rng.integers(1, 3))
     keys = [("Ham",), ("Ham", "AA"), ("Ham", "AA", "BB", "CC")][int(rng.integers(3))]
     base = gen_systems.herm_system(rng, num_wann=nw, radius=rng.uniform(1.0, 1.8), keys=keys, centers=["random", "groups"][int(rng.integers(2))],
                                    spinor=False)
-    if kind == "spin_doubled":
+    if kind.startswith("spin_doubled"):
         base.double_spin()
         # the spin matrix set by double_spin has zero trace inside every degenerate pair (all spin-derived results
         # vanish identically and would consist of rounding noise only): replace it by a generic Hermitian one - gauge
@@ -74,17 +90,12 @@ def degenerate_system(rng, kind):
         iR = base.rvec.iRvec
         SS = gen_systems.random_matrices(rng, iR, base.real_lattice, base.num_wann, keys=("SS",))["SS"]
         base.set_R_mat("SS", SS, reset=True)
-        return base, dict(kind=kind, num_wann=base.num_wann, keys=list(keys) + ["SS"])
-    # block-diagonal copies: X -> diag(X, X) with co-centred copies (degeneracy 2, no spin)
-    mats = {}
-    for k, X in base._XX_R.items():
-        Y = np.zeros((X.shape[0], 2 * nw, 2 * nw) + X.shape[3:], dtype=complex)
-        Y[:, :nw, :nw] = X
-        Y[:, nw:, nw:] = X
-        mats[k] = Y
-    cred = np.vstack([base.wannier_centers_red, base.wannier_centers_red])
-    s = gen_systems.make_system(base.real_lattice, base.rvec.iRvec, mats, cred)
-    return s, dict(kind=kind, num_wann=2 * nw, keys=list(keys))
+        if kind == "spin_doubled_x2":
+            base = block_copies(base, 2)
+        return base, dict(kind=kind, num_wann=base.num_wann, keys=list(keys) + ["SS"], multiplicity=4 if kind == "spin_doubled_x2" else 2)
+    m = dict(block_copies=2, block_copies_3=3, block_copies_4=4)[kind]
+    s = block_copies(base, m)
+    return s, dict(kind=kind, num_wann=m * nw, keys=list(keys), multiplicity=m)
 
 
 def case(ctx, rng, idx, state):
@@ -142,8 +153,15 @@ def case(ctx, rng, idx, state):
         return
 
     # ---------------------------------- (b) random gauge ----------------------------------------------
-    kind = ["spin_doubled", "block_copies"][int(rng.integers(2))]
+    kind = KINDS[(idx // 2) % len(KINDS)]
     system, info = degenerate_system(rng, kind)
+    # how the calculators group degenerate bands is a documented option of every calculator; any grouping that contains the exactly
+    # degenerate multiplets must give gauge-independent results
+    cfgs = [{}, {"degen_thresh": float(10 ** rng.uniform(-6, -3.5))}] + ([{"degen_Kramers": True}] if info["multiplicity"] % 2 == 0 else [])
+    cfg = cfgs[int(rng.integers(len(cfgs)))]
+    info["calculator_options"] = dict(cfg)
+    ctx.count("cfg_" + ("default" if not cfg else sorted(cfg)[0]))
+    ctx.count(f"multiplicity_{info['multiplicity']}")
     nw = system.num_wann
     has_AA = system.has_R_mat("AA")
     has_SS = system.has_R_mat("SS")
@@ -152,9 +170,12 @@ def case(ctx, rng, idx, state):
     seed = int(rng.integers(1 << 31))
     # -- tabulated quantities at single k-points
     quantities = ["energy", "band_gradients", "berry_curvature_internal_terms"] + (["berry_curvature"] if has_AA else []) + (["spin"] if has_SS else [])
-    calcs_k = {"morb_int": tab.OrbitalMoment(kwargs_formula={"external_terms": False})}
+    calcs_k = {"morb_int": tab.OrbitalMoment(kwargs_formula={"external_terms": False}, **cfg), "berry_cfg": tab.BerryCurvature(kwargs_formula=ext, **cfg),
+               "vel_cfg": tab.Velocity(**cfg)}
     if has_CC:
-        calcs_k["morb"] = tab.OrbitalMoment()
+        calcs_k["morb"] = tab.OrbitalMoment(**cfg)
+    if has_SS:
+        calcs_k["spin_cfg"] = tab.Spin(**cfg)
     gm_total = 0
     for ik in range(2 if not ctx.thorough else 5):
         k = rng.uniform(0, 1, 3)
@@ -176,6 +197,15 @@ def case(ctx, rng, idx, state):
             b = val(r1[q])
             ctx.close("tabulated_value_changes_under_random_gauge", b, a, rtol=1e-9, scale=max(np.abs(a).max(), np.abs(E).max() if q == "energy" else 0.0),
                       what=f"{q} at k={k}", witness=dict(info, k=k, seed=seed + ik))
+        # periodicity on the degenerate model (the eigenvector basis inside a multiplet differs between k and k+G)
+        G = rng.integers(-2, 3, size=3)
+        if not np.any(G):
+            G[int(rng.integers(3))] = 1
+        r2 = wb.evaluate_k(system, k=tuple(k + G), quantities=quantities, calculators=calcs_k, return_single_as_dict=True)
+        for q in quantities + list(calcs_k):
+            a = val(r0[q])
+            ctx.close("evaluate_k(k+G)!=evaluate_k(k)[degenerate_model]", val(r2[q]), a, rtol=1e-8,
+                      scale=max(np.abs(a).max(), np.abs(E).max() if q == "energy" else 0.0), what=f"{q} at k={k} G={G}", witness=dict(info, k=k, G=G))
         ctx.count("gauge_pairs_evaluate_k")
     # -- integrated quantities through run()
     div = [int(x) for x in rng.integers(1, 3, size=3)]
@@ -185,25 +215,25 @@ def case(ctx, rng, idx, state):
     c = wb.calculators
     omega = np.linspace(0.2, 2.0, 3)
     pool = {
-        "CumDOS": c.static.CumDOS(Efermi=Ef), "DOS": c.static.DOS(Efermi=Ef),
-        "AHC": c.static.AHC(Efermi=Ef, kwargs_formula=ext), "Ohmic_surf": c.static.Ohmic_FermiSurf(Efermi=Ef),
-        "Ohmic_sea": c.static.Ohmic_FermiSea(Efermi=Ef), "BerryDipole_sea": c.static.BerryDipole_FermiSea(Efermi=Ef, kwargs_formula=ext),
-        "BerryDipole_surf": c.static.BerryDipole_FermiSurf(Efermi=Ef, kwargs_formula=ext),
-        "Morb_int": c.static.Morb(Efermi=Ef, kwargs_formula={"external_terms": False}),
-        "GME_orb_surf_int": c.static.GME_orb_FermiSurf(Efermi=Ef, kwargs_formula={"external_terms": False}),
-        "OptCond": c.dynamic.OpticalConductivity(Efermi=Ef[::2], omega=omega, smr_fixed_width=0.2, kBT=0.05, kwargs_formula=ext),
-        "JDOS": c.dynamic.JDOS(Efermi=Ef[::2], omega=omega, smr_fixed_width=0.2),
+        "CumDOS": c.static.CumDOS(Efermi=Ef, **cfg), "DOS": c.static.DOS(Efermi=Ef, **cfg),
+        "AHC": c.static.AHC(Efermi=Ef, kwargs_formula=ext, **cfg), "Ohmic_surf": c.static.Ohmic_FermiSurf(Efermi=Ef, **cfg),
+        "Ohmic_sea": c.static.Ohmic_FermiSea(Efermi=Ef, **cfg), "BerryDipole_sea": c.static.BerryDipole_FermiSea(Efermi=Ef, kwargs_formula=ext, **cfg),
+        "BerryDipole_surf": c.static.BerryDipole_FermiSurf(Efermi=Ef, kwargs_formula=ext, **cfg),
+        "Morb_int": c.static.Morb(Efermi=Ef, kwargs_formula={"external_terms": False}, **cfg),
+        "GME_orb_surf_int": c.static.GME_orb_FermiSurf(Efermi=Ef, kwargs_formula={"external_terms": False}, **cfg),
+        "OptCond": c.dynamic.OpticalConductivity(Efermi=Ef[::2], omega=omega, smr_fixed_width=0.2, kBT=0.05, kwargs_formula=ext, **cfg),
+        "JDOS": c.dynamic.JDOS(Efermi=Ef[::2], omega=omega, smr_fixed_width=0.2, **cfg),
     }
     if has_SS:
-        pool["Spin"] = c.static.Spin(Efermi=Ef)
-        pool["GME_spin_surf"] = c.static.GME_spin_FermiSurf(Efermi=Ef)
+        pool["Spin"] = c.static.Spin(Efermi=Ef, **cfg)
+        pool["GME_spin_surf"] = c.static.GME_spin_FermiSurf(Efermi=Ef, **cfg)
     if has_CC:
-        pool["Morb"] = c.static.Morb(Efermi=Ef)
+        pool["Morb"] = c.static.Morb(Efermi=Ef, **cfg)
     names = sorted(pool)
     chosen = [names[i] for i in sorted(rng.choice(len(names), size=min(int(rng.integers(3, 7)), len(names)), replace=False))]
     calcs = {n: pool[n] for n in chosen}
-    calcs["tab"] = c.tabulate.TabulatorAll({"Energy": tab.Energy(), "BerryCurvature": tab.BerryCurvature(kwargs_formula=ext),
-                                            "Velocity": tab.Velocity()}, mode="grid")
+    calcs["tab"] = c.tabulate.TabulatorAll({"Energy": tab.Energy(**cfg), "BerryCurvature": tab.BerryCurvature(kwargs_formula=ext, **cfg),
+                                            "Velocity": tab.Velocity(**cfg)}, mode="grid")
     twins = runkit.raw_twins(calcs)
     calcs_run = dict(calcs, **twins)
     tmp = os.path.join(env.WORK, f"c04-{os.getpid()}-{idx}")
@@ -251,10 +281,10 @@ if __name__ == "__main__":
         PROP, "exploration", case, setup_fn=setup,
         tiers=dict(quick=dict(cases=64, shards=8, time=200), thorough=dict(cases=1600, shards=16, time=1200)),
         rule="(a) random Hermitian models (1-4 WFs; Ham, +AA, +SS, +BB,CC), random k and G with |G|_inf<=3, all named quantities of evaluate_k plus orbital "
-             "moment, and a path from k to k+G; (b) models with exact degeneracies at every k (spin-doubled, block copies), random gauge vs default "
+             "moment, and a path from k to k+G; (b) models with exact 2-, 3- and 4-fold degeneracies at every k (spin-doubled, 2-4 block copies, spin-doubled x2), calculators with default grouping / random degen_thresh / degen_Kramers, random gauge vs default "
              "gauge for evaluate_k quantities and for 3-6 integrating calculators (static, dynamic) plus a grid tabulator; non-trivial = the monitor "
              "saw at least one non-diagonal random rotation; distinct by (model, grid, calculators)",
         assumptions=["numpy's global RNG is seeded by the harness (scipy's unitary_group draws from it)",
                      "tie guards: multiplets separated by >= 5e-3 from each other, band energies 1e-7 away from Fermi-bin edges"],
-        required_counters=("periodicity_pairs", "gauge_pairs_evaluate_k", "gauge_runs", "random_rotations_applied"),
+        required_counters=("periodicity_pairs", "gauge_pairs_evaluate_k", "gauge_runs", "random_rotations_applied", "multiplicity_4", "cfg_degen_Kramers"),
     )
